@@ -78,9 +78,16 @@ class Cfg(object):
 
     src: {ann} = 'a'
     other: int = 1
+    p1: {ann} = 'a'
+    p2: {ann} = 'a'
+    p3: {ann} = 'a'
+    p4: {ann} = 'a'
+    k1: {ann} = 'a'
+    k2: {ann} = 'a'
 
 
-def producer(first: int, src: {ann} = 'a'):
+def producer(first: int, src: {ann} = 'a', p1: {ann} = 'a', p2: {ann} = 'a', p3: {ann} = 'a', p4: {ann} = 'a', k1: {ann} = 'a',
+             k2: {ann} = 'a'):
     """The producer"""
     return src
 '''.format(ev=EVAL_VALUE, ann=SRC_ANN)
@@ -147,7 +154,8 @@ def run_case(args):
         if c["mode"] == "eval":
             in_param = "SRC_VALUES"
         else:
-            in_param = "Cfg.src" if c["input"] == "class_attr" else "producer.src"
+            in_name = tname if c.get("same") else "src"
+            in_param = ("Cfg." if c["input"] == "class_attr" else "producer.") + in_name
         before_slots, before_rest = project(ast.parse(out_src), sh)
         if c.get("prev", "none") != "none":
             # an earlier call in this process, from the same unchanged input file, into another output file
@@ -195,7 +203,7 @@ def run_case(args):
             elif s["def"][0] == "none":
                 dflt = None
             if k == c["target"] - 1:
-                if c["mode"] != "eval":
+                if c["mode"] != "eval" and not c.get("same"):
                     n = "src"
                 a = {"plain": SRC_ANN, "wrap": WRAP.format(output_param=SRC_ANN), "eval": "Literal['x', 'y']"}[c["mode"]]
             want.append([n, a, dflt, s["kwonly"]])
@@ -206,6 +214,9 @@ def run_case(args):
             res["fails"].append("DefaultsAligned: the target has {} slots, had {}".format(len(got), len(want)))
         else:
             for k, (g_, w_) in enumerate(zip(got, want)):
+                if g_ != w_ and k == c["target"] - 1 and c.get("same") and case["after"][k]["def"][0] == "srcvalue" \
+                        and sh["kind"] != "class" and g_[:2] + g_[3:] == w_[:2] + w_[3:] and g_[2] == norm(before_slots[k][2]):
+                    continue      # the selected slot kept its OWN default instead of taking the input's value: the statement allows both
                 if g_ != w_:
                     clause = "TargetUpdated" if k == c["target"] - 1 and g_[2:] == w_[2:] else \
                         "DefaultsAligned" if g_[2:] != w_[2:] else "OnlyTarget"
